@@ -99,10 +99,14 @@ Section Breaker.
     end.
   Definition put (r : registry) (name : nat) (w : rw) : registry := aset Nat.eqb name w r.
 
-  (* one event under a name *)
+  (* one event under a name; the clock is global and advancing it touches no breaker *)
   Definition rstep (st : registry * Z) (ne : nat * ev) : (registry * Z) * obs :=
     let '(r, now) := st in
-    let (r1, w) := get r (fst ne) now in
-    let '((w', now'), o) := bstep (w, now) (snd ne) in
-    ((put r1 (fst ne) w', now'), o).
+    match snd ne with
+    | Advance dt => ((r, now + dt), ONone)
+    | _ =>
+      let (r1, w) := get r (fst ne) now in
+      let '((w', now'), o) := bstep (w, now) (snd ne) in
+      ((put r1 (fst ne) w', now'), o)
+    end.
 End Breaker.
